@@ -37,7 +37,7 @@ function GetToken(input :string, model:{ValType :ValType, pos :number}) :number 
 	if (c == 63) {
 		return verifBadCode;
 	}
-	const k = c - 97;
+	const k = c - 64;
 	model.ValType = new ValType();
 	model.ValType.s = "!"; model.ValType.t = "!"; model.ValType.n = -9999; model.ValType.m = -9999;
 	const sv = String.fromCharCode(97 + k % 26) + "@" + p;
